@@ -281,4 +281,9 @@ def build(E):
     spec.trusted += ["E7: host and port of a URL are functions of its authority (the text between '://' and the first of / ? #)",
                      "precondition: the configured upstream has a non-empty authority (a configuration such as 'gemini://' or 'gemini:///x' is outside the property's configurations)",
                      "request.path starts with '/' and has no ?#, request.query has no # (post of parse_url, decided under C19)"]
+    # "nothing added, dropped or reinterpreted": what the client sends is parse_url(url).normalized (clause above); that the normalised
+    # form IS the canonical rendering of the URL's own components (path intact, dot segments included) is parse_url's contract - checked
+    # here too, in an engine of its own
+    from contracts import C19
+    spec.subs = list(getattr(spec, "subs", [])) + [C19.core_sub("C17", only="parse_url/")]
     return spec
